@@ -277,6 +277,70 @@ static std::string probe(const std::string& name, const std::vector<std::string>
         a += b;
         return std::to_string(a.rows());
     }
+    if (name == "raster_view") {
+        // a raster wrapping caller storage never takes ownership of it, whatever is done with the
+        // wrapper afterwards (moved from, copied, assigned to); the buffer is not heap memory,
+        // so releasing it is reported by any allocator
+        static int buf[6];
+        for (int i = 0; i < 6; ++i)
+            buf[i] = i + 1;
+        const std::string op = arg(0);
+        long sum = 0;
+        if (op == "move_assign_temporary") {
+            IR target(1, 1, 0);
+            target = IR(buf, 2, 3);
+            sum = target(1, 2);
+        }
+        else if (op == "move_assign_named") {
+            IR view(buf, 2, 3);
+            {
+                IR target(3, 3, 7);
+                target = std::move(view);
+                sum = target(0, 1);
+            }
+        }
+        else if (op == "move_assign_then_reassign") {
+            IR target(1, 1, 0);
+            target = IR(buf, 2, 3);
+            target = IR(2, 2, 5);
+            IR other(2, 2, 4);
+            target = other;
+            sum = target(0, 0);
+        }
+        else if (op == "move_construct") {
+            IR view(buf, 2, 3);
+            {
+                IR target(std::move(view));
+                sum = target(1, 0);
+            }
+        }
+        else if (op == "copy_construct") {
+            IR view(buf, 2, 3);
+            {
+                IR target(view);
+                target(0, 0) = 99;
+                sum = target(0, 0) + view(0, 0);
+            }
+        }
+        else if (op == "copy_assign") {
+            IR view(buf, 2, 3);
+            {
+                IR target(1, 1, 0);
+                target = view;
+                target(0, 0) = 99;
+                sum = target(0, 0) + view(0, 0);
+            }
+        }
+        else if (op == "write_through") {
+            IR view(buf, 2, 3);
+            view(1, 1) = 42;
+            view += 1;
+            sum = buf[4];
+        }
+        for (int i = 0; i < 6; ++i)
+            sum = sum * 7 + buf[i];
+        return std::to_string(sum);
+    }
     if (name == "network_no_node") {
         BBox<double> bbox;
         bbox.north = 10;
